@@ -79,7 +79,7 @@ def explore_decisions(run, budgets: Dict[str, int], total: Optional[int] = None,
     run(prefix) -> Decisions (with .trace filled) ; yields nothing, run must do
     the checking itself.  Every point after the prefix is branched on, as long
     as the number of non-default answers per kind stays within budgets[kind]
-    (kinds absent from budgets are unlimited) and the total within `total`.
+    (kinds absent from budgets get no deviation) and the total within `total`.
     Returns (executions, capped)."""
     stack: List[List[int]] = [[]]
     executions = 0
@@ -99,7 +99,7 @@ def explore_decisions(run, budgets: Dict[str, int], total: Optional[int] = None,
         for i, (c, k, kind) in enumerate(trace):
             if i >= len(prefix):
                 ok_total = total is None or tot + 1 <= total
-                ok_kind = kind not in budgets or used.get(kind, 0) + 1 <= budgets[kind]
+                ok_kind = used.get(kind, 0) + 1 <= budgets.get(kind, 0)
                 if ok_total and ok_kind:
                     for alt in range(k - 1, 0, -1):
                         stack.append([x for x, _, _ in trace[:i]] + [alt])
@@ -220,13 +220,24 @@ class _Rng:
         return seq[self.dec.pick(len(seq), "tree_choice")]
 
     def shuffle(self, x) -> None:
+        """All n! orders for n <= 3; for longer lists the 2n rotations of the list
+        and of its reverse (the order of a proof-tree node's children only decides
+        which occurrence of a repeated label is expanded, which the returned rule
+        set does not depend on -- validated exhaustively on small dictionaries by C05)."""
         n = len(x)
         if n <= 1:
             return
-        idx = self.dec.pick(math.factorial(n), "shuffle")
+        if n <= 3:
+            idx = self.dec.pick(math.factorial(n), "shuffle")
+            if idx:
+                perm = next(p for j, p in enumerate(permutations(range(n))) if j == idx)
+                x[:] = [x[i] for i in perm]
+            return
+        idx = self.dec.pick(2 * n, "shuffle")
         if idx:
-            perm = next(p for j, p in enumerate(permutations(range(n))) if j == idx)
-            x[:] = [x[i] for i in perm]
+            base = list(x) if idx < n else list(reversed(x))
+            r = idx % n
+            x[:] = base[r:] + base[:r]
 
 
 _SEAM_MODULES = (
